@@ -48,7 +48,7 @@ func firstLine(s string) string {
 
 // raceSolvers runs all solvers on the script; first decisive answer wins.
 func raceSolvers(script string, dir string, name string, timeoutS int) solveResult {
-	return raceSolvers2(script, "", dir, name, timeoutS)
+	return raceSolvers2(script, "", "", "", dir, name, timeoutS)
 }
 
 var intblast = solverSpec{"cvc5-1.0.3-intblast", func(f string, t int) []string {
@@ -59,7 +59,7 @@ var intblast = solverSpec{"cvc5-1.0.3-intblast", func(f string, t int) []string 
 // query (quantified assumptions replaced by instances; see groundScript) on
 // z3-new and on cvc5 with bit-vectors translated to integers. The ground
 // variant has fewer assumptions, so only its `unsat` answers count.
-func raceSolvers2(script, ground string, dir string, name string, timeoutS int) solveResult {
+func raceSolvers2(script, ground, noq, mul string, dir string, name string, timeoutS int) solveResult {
 	file := filepath.Join(dir, sanitizeFile(name)+".smt2")
 	os.WriteFile(file, []byte(script), 0o644)
 	ctx, cancel := context.WithCancel(context.Background())
@@ -76,8 +76,9 @@ func raceSolvers2(script, ground string, dir string, name string, timeoutS int) 
 	nonlinear := func(s string) bool {
 		return strings.Contains(s, "(bvudiv ") || strings.Contains(s, "(bvurem ") || strings.Contains(s, "(bvmul ") || strings.Contains(s, "(bvsdiv ") || strings.Contains(s, "(bvsrem ")
 	}
-	if nonlinear(script) && !strings.Contains(script, "(forall ") {
-		// non-linear bit-vector arithmetic: also try cvc5's translation of bit-vectors to integers
+	if !strings.Contains(script, "(forall ") {
+		// also try cvc5's translation of bit-vectors to integers (non-linear arithmetic, and 64-bit linear
+		// arithmetic with comparisons, which bit-blasting decides slowly)
 		jobs = append(jobs, job{intblast, file, false})
 	}
 	if ground != "" {
@@ -85,6 +86,22 @@ func raceSolvers2(script, ground string, dir string, name string, timeoutS int) 
 		os.WriteFile(gfile, []byte(ground), 0o644)
 		jobs = append(jobs, job{solverSpec{"z3-new-5.1.0/ground", solvers[0].argv}, gfile, true})
 		jobs = append(jobs, job{solverSpec{"cvc5-1.0.3-intblast/ground", intblast.argv}, gfile, true})
+	}
+	if noq != "" {
+		qfile := filepath.Join(dir, sanitizeFile(name)+".noq.smt2")
+		os.WriteFile(qfile, []byte(noq), 0o644)
+		jobs = append(jobs, job{solverSpec{"z3-new-5.1.0/noq", solvers[0].argv}, qfile, true})
+		if nonlinear(noq) {
+			jobs = append(jobs, job{solverSpec{"cvc5-1.0.3-intblast/noq", intblast.argv}, qfile, true})
+		} else {
+			jobs = append(jobs, job{solverSpec{"cvc5-1.0.3/noq", solvers[2].argv}, qfile, true})
+		}
+	}
+	if mul != "" {
+		mfile := filepath.Join(dir, sanitizeFile(name)+".mul.smt2")
+		os.WriteFile(mfile, []byte(mul), 0o644)
+		jobs = append(jobs, job{solverSpec{"cvc5-1.0.3-intblast/mulUF", intblast.argv}, mfile, true})
+		jobs = append(jobs, job{solverSpec{"z3-new-5.1.0/mulUF", solvers[0].argv}, mfile, true})
 	}
 	ch := make(chan solveResult, len(jobs))
 	start := time.Now()
@@ -180,7 +197,7 @@ func (x *Exec) obligationScript(o *Obligation, getValues []*Term) string {
 // terms of the right sort that occur in the goal and in the other
 // assumptions (array indices first). Dropping or weakening assumptions is
 // sound: an `unsat` answer for this variant discharges the obligation.
-func (x *Exec) groundScript(o *Obligation) string {
+func (x *Exec) groundScript(o *Obligation, noInst bool) string {
 	c := x.c
 	goal := c.skolemize(o.Cond)
 	if goal.hasQ || o.Guard.hasQ {
@@ -196,6 +213,10 @@ func (x *Exec) groundScript(o *Obligation) string {
 	}
 	if len(quant) == 0 {
 		return ""
+	}
+	if noInst {
+		// quantified assumptions dropped altogether (fewer assumptions: an unsat answer still proves the obligation)
+		return c.Script(append(append([]*Term{}, ground...), o.Guard, c.Not(goal)), ScriptOpts{})
 	}
 	base := append(append([]*Term{}, ground...), goal, o.Guard)
 	pool := c.instPool(base, 48)
@@ -220,6 +241,27 @@ func (x *Exec) groundScript(o *Obligation) string {
 	return c.Script(asserts, ScriptOpts{})
 }
 
+// mulUFScript: the obligation without its quantified assumptions and with products of two variables abstracted to an
+// uninterpreted function (plus commutativity instances). "" when there is no such product or the goal is quantified.
+func (x *Exec) mulUFScript(o *Obligation) string {
+	c := x.c
+	goal := c.skolemize(o.Cond)
+	if goal.hasQ || o.Guard.hasQ {
+		return ""
+	}
+	var ground []*Term
+	for _, a := range o.Assums[:o.NAssum] {
+		if !a.hasQ {
+			ground = append(ground, a)
+		}
+	}
+	ts, facts, changed := c.AbstractMul(append(append([]*Term{}, ground...), o.Guard, c.Not(goal)))
+	if !changed {
+		return ""
+	}
+	return c.Script(append(ts, facts...), ScriptOpts{})
+}
+
 // instPool: candidate instantiation terms by sort: indices of array reads
 // (select) first, then other small closed terms.
 func (c *Ctx) instPool(ts []*Term, n int) map[string][]*Term {
@@ -227,6 +269,8 @@ func (c *Ctx) instPool(ts []*Term, n int) map[string][]*Term {
 	prio := map[string][]*Term{}
 	rest := map[string][]*Term{}
 	inPrio := map[*Term]bool{}
+	seenIdx := map[*Term]bool{}
+	var idxs []*Term
 	var walk func(t *Term)
 	walk = func(t *Term) {
 		if seen[t] || t.hasQ {
@@ -235,6 +279,10 @@ func (c *Ctx) instPool(ts []*Term, n int) map[string][]*Term {
 		seen[t] = true
 		for _, a := range t.args {
 			walk(a)
+		}
+		if t.op == "pelem" && !t.open && !t.args[1].isLit() && !seenIdx[t.args[1]] {
+			seenIdx[t.args[1]] = true
+			idxs = append(idxs, t.args[1])
 		}
 		if t.op == "select" && !t.args[1].open && !t.args[1].isLit() && !inPrio[t.args[1]] {
 			inPrio[t.args[1]] = true
@@ -266,6 +314,75 @@ func (c *Ctx) instPool(ts []*Term, n int) map[string][]*Term {
 		if len(l) > n {
 			out[s] = l[:n]
 		}
+	}
+	if len(idxs) > 32 {
+		idxs = idxs[:32]
+	}
+	out["$elemidx"] = idxs
+	return out
+}
+
+// triggerCandidates: for a bound variable b that occurs in the body only as a slice/array element index
+// (pelem(P, b) or pelem(P, B+b) with B closed), the instantiation terms that make such an index coincide with an
+// element index of the ground part of the query (E-matching on the element-address pattern).
+func (c *Ctx) triggerCandidates(body, b *Term, idxs []*Term) []*Term {
+	var offs []*Term // nil entry: index is b itself
+	found := false
+	seen := map[*Term]bool{}
+	var walk func(t *Term)
+	walk = func(t *Term) {
+		if seen[t] || !t.open {
+			return
+		}
+		seen[t] = true
+		if t.op == "pelem" {
+			e := t.args[1]
+			switch {
+			case e == b:
+				offs = append(offs, nil)
+				found = true
+			case e.op == "bvadd" && len(e.args) == 2 && e.args[1] == b && !e.args[0].open:
+				offs = append(offs, e.args[0])
+				found = true
+			case e.op == "bvadd" && len(e.args) == 2 && e.args[0] == b && !e.args[1].open:
+				offs = append(offs, e.args[1])
+				found = true
+			}
+		}
+		for _, a := range t.args {
+			walk(a)
+		}
+	}
+	walk(body)
+	if !found {
+		return nil
+	}
+	var out []*Term
+	dup := map[*Term]bool{}
+	add := func(t *Term) {
+		if !dup[t] && t.sort == b.sort {
+			dup[t] = true
+			out = append(out, t)
+		}
+	}
+	for _, off := range offs {
+		for _, e := range idxs {
+			switch {
+			case off == nil:
+				add(e)
+			case e.op == "bvadd" && len(e.args) == 2 && e.args[0] == off:
+				add(e.args[1])
+			case e.op == "bvadd" && len(e.args) == 2 && e.args[1] == off:
+				add(e.args[0])
+			case e == off:
+				add(c.BV(0, bvWidth(b.sort)))
+			default:
+				add(c.BVBin("bvsub", e, off))
+			}
+		}
+	}
+	if len(out) > 24 {
+		out = out[:24]
 	}
 	return out
 }
@@ -396,6 +513,9 @@ func (c *Ctx) instances(a *Term, pool map[string][]*Term) []*Term {
 			}
 			var combos [][]*Term
 			first := pool[t.bvs[0].sort]
+			if tc := c.triggerCandidates(t.args[0], t.bvs[0], pool["$elemidx"]); len(tc) > 0 {
+				first = tc
+			}
 			if len(t.bvs) == 1 {
 				for _, p := range first {
 					combos = append(combos, []*Term{p})
@@ -433,6 +553,8 @@ func (x *Exec) dischargeAll(obls []*Obligation, dir string, timeoutS int, par in
 	// scripts are generated sequentially (term table is not thread-safe)
 	scripts := make([]string, len(obls))
 	grounds := make([]string, len(obls))
+	noqs := make([]string, len(obls))
+	muls := make([]string, len(obls))
 	for i, o := range obls {
 		if o.Status == "skipped" {
 			continue
@@ -445,7 +567,9 @@ func (x *Exec) dischargeAll(obls []*Obligation, dir string, timeoutS int, par in
 		scripts[i] = x.obligationScript(o, nil)
 		o.SMTBytes = len(scripts[i])
 		if k := o.Kind; !(k == "nil" || k == "bounds" || k == "div" || k == "shift" || k == "typeassert") {
-			grounds[i] = x.groundScript(o)
+			grounds[i] = x.groundScript(o, false)
+			noqs[i] = x.groundScript(o, true)
+			muls[i] = x.mulUFScript(o)
 		}
 	}
 	sem := make(chan struct{}, par)
@@ -514,7 +638,7 @@ func (x *Exec) dischargeAll(obls []*Obligation, dir string, timeoutS int, par in
 		go func() {
 			defer wg.Done()
 			defer func() { <-sem }()
-			r := raceSolvers2(scripts[i], grounds[i], dir, o.Name, timeoutS)
+			r := raceSolvers2(scripts[i], grounds[i], noqs[i], muls[i], dir, o.Name, timeoutS)
 			o.Solver = r.solver
 			o.Seconds = r.seconds
 			o.Output = r.output
